@@ -42,3 +42,6 @@ func (mp *MemPool) VerifC04Len() (length int, cached int) {
 	mp.cache.Range(func(k, v interface{}) bool { cached++; return true })
 	return mp.length, cached
 }
+
+// VerifC04StateRoot is the root of the state the pool validates against (mp.stateDB).
+func (mp *MemPool) VerifC04StateRoot() []byte { return mp.stateDB.GetRoot() }
